@@ -331,8 +331,8 @@ impl DbRow for data::Message {
             end_time: row.get_unwrap("end_time"),
             chan_id: row.get_unwrap("chan_id"),
             chan_pattern: row.get_unwrap("chan_pattern"),
-            create_time: row.get_unwrap("timestamp"),
-            update_time: row.get_unwrap("create_time"),
+            create_time: row.get_unwrap("create_time"),
+            update_time: row.get_unwrap("update_time"),
             retry_times: row.get_unwrap("retry_times"),
             status: row.get_unwrap::<&str, i8>("status").into(),
             timestamp: row.get_unwrap("timestamp"),
